@@ -69,6 +69,11 @@ def main():
             if rc != 0:
                 res["demo_without_tail"] = out[-1500:]
         rc, out = run(["git", "apply", os.path.join(d, "patch.diff")], wt)
+        if rc != 0:
+            rc, out = run(["git", "apply", "-3", os.path.join(d, "patch.diff")], wt)
+            if rc == 0:
+                run(["git", "reset", "-q"], wt)
+                res["patch_note"] = "applied with a three-way merge (the tree has moved on since the change was written)"
         res["patch_applies"] = rc == 0
         if rc != 0:
             res["apply_err"] = out[-500:]
